@@ -5,6 +5,9 @@
 #include <igris/util/ctype.h>
 #include <igris/dprint/dprint.h>
 #include <igris/defs/vt100.h>
+// harness code below: single calls per op, nothing time-critical -> no optimisation (compile time of the
+// sanitized translation unit); the sweeps live in harness/C07.cpp at -O1
+#pragma GCC optimize("O0")
 
 static_assert(sizeof(long) == 8 && sizeof(int) == 4 && sizeof(short) == 2, "LP64 assumed by the model");
 
